@@ -35,7 +35,19 @@ def excluded(finding_id):
     return finding_id in EXCLUDE
 
 
-def _notrace():
+class _Null:
+    def __enter__(self):
+        return self
+
+    def __exit__(self, *a):
+        return False
+
+
+def notrace():
+    """Run a block untraced.  Only for code that handles concrete values exclusively (then the
+    untraced execution is exact and merely faster)."""
+    if CONCRETE:
+        return _Null()
     from crosshair.tracers import NoTracing
     return NoTracing()
 
